@@ -144,6 +144,7 @@ def work(item):
             for sig, msg in check(lay, h, life, writers):
                 res.violation(sig, f"layout {lay['name']} writers {[WRITERS[i][0] for i in writers]} faults {plan}: {msg}", rp)
             res.outcome(core.stable_hash([h, list(writers), sorted(plan.items()), [r[2] for r in life.log if r[0] == "robotPeriodic"]]))
+            R.visit_history(res, lay, h, extra=(list(writers), sorted(plan.items())))
             if not res.samples and len(h) >= 3 and len(writers) == 4:
                 res.sample(dict(layout=lay["name"], history=h, writers=[WRITERS[i][0] for i in writers], attrs=[f"{c}.{a}" for c, a, _d, _m in ATTRS], seen_by_robotPeriodic=[r[2] for r in life.log if r[0] == "robotPeriodic"]))
     return res
@@ -171,7 +172,6 @@ def main(tier, seed):
     res = core.Result()
     for d in core.parallel("mc.props.c10", "work", items, seed=seed):
         res.merge(d)
-    res.states = 2 * 16 * 4
     res.bounds.update(history_depth=depth, layouts=4, assignment_scripts=16, fault_plans=len(cases_fault), attributes=[f"{c}.{a}" for c, a, _d, _m in ATTRS])
     rule = (
         "three component layouts (both declaration orders, one with two components that are instances of the same class, one where the base class declaring the inherited markers is itself a component; markers declared on the class, a second marker, a marker inherited from a base "
